@@ -33,13 +33,17 @@ type cfgDef struct {
 	validators int
 	targetComm uint64 // TARGET_COMMITTEE_SIZE
 	syncSize   uint64 // SYNC_COMMITTEE_SIZE
+	spe        uint64 // SLOTS_PER_EPOCH (0: the minimal preset's 8)
 }
 
 var cfgDefs = map[string]cfgDef{
 	// 64 validators, 2 committees of 4 per slot (aggregator modulo 1), sync committee 32 (sync aggregator modulo 1)
-	"s": {"s", 64, 4, 32},
+	"s": {"s", 64, 4, 32, 0},
 	// 256 validators, 1 committee of 32 per slot (aggregator modulo 2), sync committee 128 (sync aggregator modulo 2)
-	"b": {"b", 256, 32, 128},
+	"b": {"b", 256, 32, 128, 0},
+	// 64 validators with mainnet's 32 slots per epoch (1 committee of 2 per slot): the deneb attestation window
+	// (up to 63 slots) is WIDER than the phase0 one here, on the 8-slot networks it is narrower
+	"m": {"m", 64, 4, 32, 32},
 }
 
 type netCtx struct {
@@ -72,6 +76,11 @@ func makeSpec(d cfgDef) *common.Spec {
 	s.DENEB_FORK_EPOCH = common.Epoch(farFuture)
 	s.ELECTRA_FORK_EPOCH = common.Epoch(farFuture)
 	s.FULU_FORK_EPOCH = common.Epoch(farFuture)
+	if d.spe != 0 {
+		s.SLOTS_PER_EPOCH = common.Slot(d.spe)
+		// keep the vectors that are sized in epochs*slots consistent with the preset's assumptions
+		s.SLOTS_PER_HISTORICAL_ROOT = common.Slot(64 * d.spe / 8)
+	}
 	s.TARGET_COMMITTEE_SIZE = view.Uint64View(d.targetComm)
 	s.SYNC_COMMITTEE_SIZE = view.Uint64View(d.syncSize)
 	s.SHARD_COMMITTEE_PERIOD = 2
